@@ -1,3 +1,102 @@
-fn main() {
-    println!("wbsim");
+//! wbsim — deterministic simulation with fault injection for babymotte/worterbuch.
+//! See /verif/DESIGN.md. Usage:
+//!   wbsim check <PROPERTY> <quick|thorough>      (reads VERIF_SEED)
+//!   wbsim replay <file>
+//!   wbsim selftest determinism [--runs N]
+//!   wbsim worker ...                              (internal)
+
+mod batch;
+mod check_import;
+mod check_locks;
+mod check_wire;
+mod wgen;
+mod harness;
+mod model;
+mod plans;
+mod scen_wire;
+mod wire;
+
+use std::process::ExitCode;
+
+/// std's `RandomState` draws its per-process keys from the OS; binding the C symbol here makes
+/// those keys constant, so `std::collections::HashMap` iteration (unix.rs client table, the
+/// client library's buffers) is the same in every process.
+#[unsafe(no_mangle)]
+pub unsafe extern "C" fn getrandom(buf: *mut u8, len: usize, _flags: u32) -> isize {
+    let s = unsafe { std::slice::from_raw_parts_mut(buf, len) };
+    for (i, b) in s.iter_mut().enumerate() {
+        *b = (i as u8).wrapping_mul(31).wrapping_add(7);
+    }
+    len as isize
+}
+
+/// Wall-clock seam: `SystemTime::now()` (the `connectedSince` entries, JWT expiry checks) reads
+/// CLOCK_REALTIME through this symbol. Inside a simulation it is a fixed epoch plus simulated
+/// time; every other clock, and every call outside a simulation, goes to the kernel.
+#[unsafe(no_mangle)]
+pub unsafe extern "C" fn clock_gettime(clk: libc::clockid_t, ts: *mut libc::timespec) -> libc::c_int {
+    if clk == libc::CLOCK_REALTIME && simcore::ctx::installed() {
+        let us = simcore::ctx::now_us();
+        const EPOCH: i64 = 1_767_225_600; // 2026-01-01T00:00:00Z
+        unsafe {
+            (*ts).tv_sec = EPOCH + (us / 1_000_000) as i64;
+            (*ts).tv_nsec = ((us % 1_000_000) * 1000) as i64;
+        }
+        return 0;
+    }
+    unsafe { libc::syscall(libc::SYS_clock_gettime, clk, ts) as libc::c_int }
+}
+
+/// getrandom 0.3/0.4 custom backend (uuid v4, rand::random): bytes from the run seed
+#[unsafe(no_mangle)]
+unsafe extern "Rust" fn __getrandom_v03_custom(
+    dest: *mut u8,
+    len: usize,
+) -> Result<(), getrandom::Error> {
+    let s = unsafe { std::slice::from_raw_parts_mut(dest, len) };
+    simcore::rand_hooks::fill(s);
+    Ok(())
+}
+
+/// process-global state of the code under test that must not leak from one run into the next
+pub fn reset_process_globals() {
+    // PERSISTENCE_LOCKED only guards the window before restore() returns; no oracle looks into it
+}
+
+fn install_panic_hook() {
+    std::panic::set_hook(Box::new(|info| {
+        let msg = format!("{info}");
+        let recorded = simcore::ctx::try_with(|s| {
+            let n = s.cur_node;
+            s.panics.push((n, msg.clone()));
+            s.count("panic");
+        });
+        if recorded.is_none() || std::env::var("WBSIM_SHOW_PANICS").is_ok() {
+            eprintln!("wbsim: panic: {msg}");
+        }
+    }));
+}
+
+fn main() -> ExitCode {
+    install_panic_hook();
+    for (k, _) in std::env::vars() {
+        if k.starts_with("WORTERBUCH_") {
+            // SAFETY: single-threaded at this point
+            unsafe { std::env::remove_var(&k) };
+        }
+    }
+    let args: Vec<String> = std::env::args().collect();
+    let code = match args.get(1).map(|s| s.as_str()) {
+        Some("check") => batch::cmd_check(&args[2..]),
+        Some("worker") => batch::cmd_worker(&args[2..]),
+        Some("replay") => batch::cmd_replay(&args[2..]),
+        Some("selftest") => batch::cmd_selftest(&args[2..]),
+        Some("one") => batch::cmd_one(&args[2..]),
+        _ => {
+            eprintln!("usage: wbsim check <PROPERTY> <quick|thorough> | replay <file> | selftest determinism | one <PROPERTY> <seed>");
+            2
+        }
+    };
+    harness::cleanup_process_dir();
+    ExitCode::from(code)
 }
